@@ -160,6 +160,7 @@ def run(ctx):
                 if infos != menu:
                     res.violation("C15:dir-info-not-menu", "+INFO lines of a '$' listing differ from the plain menu lines", {"dir": sel},
                                   observed=infos[:4], required=menu[:4], replay={"name": "dir", "data_len": 0, "sidecars": {}})
+        _virtual_items(ctx, res)
         outs = ctx.driver.run(model_lines)
         for (inp, impl), o in zip(checks, outs):
             res.evaluations += 1
@@ -174,7 +175,97 @@ def run(ctx):
     return res
 
 
+def split_items(body):
+    """'$' body -> one block list per item (an item starts at its +INFO line)"""
+    items = []
+    for b in parse_blocks(body):
+        if b[0] == b"INFO" or not items:
+            items.append([])
+        items[-1].append(b)
+    return items
+
+
+def _virtual_items(ctx, res):
+    """Items that are not plain files: remote links (gophermap, .Links/.names), info lines, gophermap-file menus,
+    mailbox folders and messages, symlinks.  Every item of every '$' listing and every '!' answer carries
+    INFO == menu line, an ADMIN block with the configured Admin: line, and VIEWS when it is a local object with a
+    MIME type; every '+' answer (documents and menus alike) starts with +-2 or with the exact body length."""
+    import trees
+    tree = pyg.Tree()
+    try:
+        objs = trees.standard(tree, hostile_content=False)
+        tree.write("remote/.Links", b"Name=Other server\nType=1\nPath=/\nHost=gopher.example.net\nPort=70\n\n"
+                                    b"Name=Other doc\nType=0\nPath=/x.txt\nHost=gopher.example.net\nPort=7070\n")
+        tree.write("remote/local.txt", b"local\n")
+        tree.write("remote/.abstract", b"directory abstract\n")
+        objs = objs + [("/remote", "dir"), ("/remote/local.txt", "file")]
+        for hl, hname in ((None, "shipped"), (pyg.DIR_HANDLERS, "dir")):
+            cfg = pyg.make_config(tree.root, hl, **{"handlers.dir.DirHandler|cachetime": "0"})
+            admin = cfg.get("protocols.gopherp.GopherPlusProtocol", "admin").encode()
+            for sel, kind in objs:
+                inp = {"item": sel, "handlers": hname}
+                rp = {"virtual": True, "selector": sel, "handlers": hname}
+                # '+': exact length or the unknown-length marker, for documents and menus
+                rd = pyg.request(reqs.build("gopherp", sel, gplus="+"), cfg)
+                res.evaluations += 1
+                k = rd.out.find(b"\r\n")
+                hdr, bodyd = rd.out[:k], rd.out[k + 2:]
+                if hdr.startswith(b"+") and hdr != b"+-2":
+                    res.nontrivial.add(("plus-len", sel, hname))
+                    if hdr == b"+-1":
+                        if not bodyd.endswith(b".\r\n"):
+                            res.violation("C15:plus-length", "'+' response marked dot-terminated without the terminator", inp,
+                                          observed=(hdr, len(bodyd)), required="+-1 then text ending in .CRLF", replay=rp)
+                    elif hdr != b"+%d" % len(bodyd):
+                        res.violation("C15:plus-length", "'+' response prefixed by a number that is not the length of what follows", inp,
+                                      observed=(hdr, len(bodyd)), required="+<exact length> or +-2", replay=rp)
+                elif not hdr.startswith((b"+", b"--")):
+                    res.violation("C15:plus-length", "'+' response without a Gopher+ status line", inp, observed=hdr[:60], required="+<n> / +-2", replay=rp)
+                # '!' on the item itself, '$' when it is a menu
+                is_menu = False
+                for mark in ("!", "$"):
+                    if mark == "$" and not is_menu:
+                        continue
+                    rl = pyg.request(reqs.build("gopherp", sel, gplus=mark), cfg)
+                    res.evaluations += 1
+                    if not rl.out.startswith(b"+-2\r\n"):
+                        res.violation("C15:info-failed", "an information request is not answered with +-2 and blocks", dict(inp, mark=mark),
+                                      observed=rl.out[:100], required="+-2 then blocks", replay=dict(rp, mark=mark))
+                        continue
+                    items = split_items(rl.out[5:])
+                    if mark == "!" and items and items[0][0][0] == b"INFO" and items[0][0][1]:
+                        is_menu = items[0][0][1][0][:1] == b"1"      # what this handler list makes of the object
+                    res.count(f"virtual:{hname}:{mark}:items", len(items))
+                    for it in items:
+                        names = [b[0] for b in it]
+                        info = it[0][1][0] if it[0][0] == b"INFO" and it[0][1] else b""
+                        res.nontrivial.add(("virtual", hname, sel, mark, info))
+                        adm = [b for b in it if b[0] == b"ADMIN"]
+                        if names[:2] != [b"INFO", b"ADMIN"] or len(adm) != 1 or not adm[0][1] or adm[0][1][0] != b"Admin: " + admin:
+                            res.violation("C15:admin-block", "an item's information lacks the +ADMIN block with the Admin: line",
+                                          dict(inp, mark=mark, info=info), observed=names, required="INFO, ADMIN (Admin: <configured>), ...",
+                                          replay=dict(rp, mark=mark))
+                        flds = info.split(b"\t")
+                        local = len(flds) >= 4 and flds[2] == listing.SRV[0].encode() and flds[3] == str(listing.SRV[1]).encode()
+                        if local and flds[0][:1] in (b"0", b"1", b"h", b"g", b"9", b"M") and flds[1][:4] not in (b"URL:", b"/URL"):
+                            if b"VIEWS" not in names:
+                                res.violation("C15:views", "a local item's information lacks the +VIEWS block",
+                                              dict(inp, mark=mark, info=info), observed=names, required="INFO, ADMIN, VIEWS", replay=dict(rp, mark=mark))
+                    if mark == "$":
+                        rg = pyg.request(reqs.build("gopher", sel), cfg)
+                        res.evaluations += 1
+                        infos = [l[7:] for l in rl.out.split(b"\r\n") if l.startswith(b"+INFO: ")]
+                        menu = [l for l in rg.out.split(b"\r\n") if l]
+                        if infos != menu:
+                            res.violation("C15:dir-info-not-menu", "+INFO lines of a '$' listing differ from the plain menu lines", inp,
+                                          observed=infos[:6], required=menu[:6], replay=dict(rp, mark=mark))
+    finally:
+        tree.close()
+
+
 def replay(data):
+    if data["violation"]["replay"].get("virtual"):
+        return _replay_virtual(data["violation"]["replay"])
     rp = data["violation"]["replay"]
     tree = pyg.Tree()
     try:
@@ -185,6 +276,22 @@ def replay(data):
             tree.write(b"d/" + nb + ext.encode(), c.encode("latin-1"))
         r = pyg.request(reqs.build("gopherp", "/d/" + nb.decode("utf-8", "surrogateescape"), gplus="!"), cfg)
         print(r.out.decode("latin-1"))
+    finally:
+        tree.close()
+    return 0
+
+
+def _replay_virtual(rp):
+    import trees
+    tree = pyg.Tree()
+    try:
+        trees.standard(tree, hostile_content=False)
+        tree.write("remote/.Links", b"Name=Other server\nType=1\nPath=/\nHost=gopher.example.net\nPort=70\n\n"
+                                    b"Name=Other doc\nType=0\nPath=/x.txt\nHost=gopher.example.net\nPort=7070\n")
+        tree.write("remote/local.txt", b"local\n")
+        cfg = pyg.make_config(tree.root, None if rp["handlers"] == "shipped" else pyg.DIR_HANDLERS, **{"handlers.dir.DirHandler|cachetime": "0"})
+        for mark in ([rp["mark"]] if "mark" in rp else ["+"]):
+            print(pyg.request(reqs.build("gopherp", rp["selector"], gplus=mark), cfg).out.decode("latin-1"))
     finally:
         tree.close()
     return 0
